@@ -50,7 +50,8 @@ def run_hash(a):
 
 
 def run_seq(a, full):
-    """hashseq/hashseqc <alg> | step | step …  — one object, state printed after every step"""
+    """hashseq/hashseqc <alg> | step | step …  — one object, state printed after every step
+    (steps: preset <n> | init (= h.initstate()) | upd <hex> [bitlen] | fin <hex> [bitlen] | call <hex> <bitlen|None>)"""
     steps = split_bar(a)
     h = mk(steps[0][0])
     out = []
@@ -58,6 +59,10 @@ def run_seq(a, full):
         fin = False
         if st[0] == 'preset':
             h.padmethod.bitcnt = int(st[1]); r = '-'
+        elif st[0] == 'init':
+            h.initstate(); r = '-'
+        elif st[0] == 'upd' and len(st) > 2:
+            r = guarded(lambda: hx(h.update(unhx(st[1]), bitlen=unoi(st[2]))))
         elif st[0] == 'upd':
             r = guarded(lambda: hx(h.update(unhx(st[1]))))
         elif st[0] == 'fin':
@@ -86,6 +91,10 @@ def run_calls(a):
     for st in steps[1:]:
         if st[0] == 'preset':
             h.padmethod.bitcnt = int(st[1])
+        elif st[0] == 'init':
+            h.initstate()
+        elif st[0] == 'upd' and len(st) > 2:
+            guarded(lambda: h.update(unhx(st[1]), bitlen=unoi(st[2])))
         elif st[0] == 'upd':
             guarded(lambda: h.update(unhx(st[1])))
         elif st[0] == 'fin':
